@@ -106,4 +106,24 @@ def marker_relation_only(case, detail, m):
     return bool(msgs) and all(MARKER_MSG in x for x in msgs)
 
 
-PREDICATES = {"marker_relation_only": marker_relation_only}
+def solution_level_after_diversify(case, detail, m):
+    """known-finding predicate (S60, seen through the secondary stage of C01): the feasibility oracle of one of C04's operator
+    histories fails, every note belongs to a step of the diversification composite / the infeasible search and names a
+    solution-level rule (one tour per group, capacity of a shared reload resource) and nothing else"""
+    import re as _re, json as _json
+    if not isinstance(detail, str) or not detail.startswith("oracle failed (operator histories"):
+        return False
+    head, _, rest = detail.partition("): ")
+    keys, _, notes_text = rest.partition(" ")
+    if keys != "assigned_part_feasible":
+        return False
+    try:
+        notes = _json.loads(notes_text)
+    except Exception:
+        return False
+    rxs = (r"^infeasible: group \S+ is served by \d+ tours$", r"^infeasible: shared resource \S+: \[[-0-9, ]*\] drawn, capacity \[[-0-9, ]*\]$")
+    return bool(notes) and len(notes) < 6 and all(
+        n.get("op") in ("diversify", "infeasible_search") and any(_re.match(rx, n.get("what", "")) for rx in rxs) for n in notes)
+
+
+PREDICATES = {"marker_relation_only": marker_relation_only, "solution_level_after_diversify_histories": solution_level_after_diversify}
